@@ -11,7 +11,7 @@ import json, os, re, subprocess, sys
 
 ROOT = "/verif/seeded"
 # further checks worth running against a seed (same code, other property)
-EXTRA = {"C11b": ["C12", "C13"], "C13b": ["C02"], "C03b": ["C06", "C11"], "C07b": ["C05"], "C10b": ["C14"], "C30": ["C26"], "C13": ["C02"], "C02": ["C13"], "C28": ["C15"], "C15": ["C28"]}
+EXTRA = {"C03b": ["C06"], "C30": ["C26"], "C13": ["C02"], "C02": ["C13"], "C28": ["C15"], "C15": ["C28"]}
 # tier in which the seed's own check is expected to report (default quick)
 TIER = {}
 
